@@ -28,6 +28,7 @@ CONSTANTS N,          \* compound ids 1..N
           NS,         \* static slot cells
           MaxFrames,  \* invocation frames (frame 1 is the entry context)
           Kinds,      \* subset of {"arr", "struct", "map"}
+          MaxLeak,    \* state constraint: surplus of the counter over the walk (leaked cycles)
           MapRemoveDropsFirst,   \* code shape of REMOVE on a map, see RemoveOp
           BugAppend, BugRemGuard
 
@@ -36,9 +37,10 @@ VARIABLES h,        \* heap: [kd: id -> kind|"free", k: id -> Seq(ref), mk: id -
           statics,  \* Seq(ref) of length NS
           frames,   \* Seq([loc: Seq(ref), try: BOOLEAN])
           everCyc,  \* a cycle was built at some moment
+          walked,   \* Walk of the current state (derived; kept as a variable so that it is computed once)
           last      \* label of the last action (history / generation only)
 
-vars == <<h, stack, statics, frames, everCyc, last>>
+vars == <<h, stack, statics, frames, everCyc, walked, last>>
 Ids == 1..N
 
 \* ------------------------------------------------------------------ graph helpers
@@ -119,17 +121,16 @@ CloneKids(s, i, hh, out) ==
 \* cloneIfStruct
 CIS(x, hh) == IF IsStruct(hh, x) THEN CloneRec(x, hh) ELSE [hh |-> hh, id |-> x]
 
-\* ------------------------------------------------------------------ garbage: ids nobody can reach again
+\* ------------------------------------------------------------------ garbage
+\* An item no root can reach can never be touched again by any instruction: its id is recycled.  What
+\* it still holds in the counters (a leaked cycle) stays in h.refs, which is all the properties need.
 Collect(hh, st, sl, fr) ==
-    LET alloc == Ids \ Free(hh)
-        reach == ReachFrom(hh.k, RootSet(st, sl, fr))
-        garb  == {c \in alloc : c \notin reach /\ hh.rc[c] = 0}
-        keep  == alloc \ garb
-        held  == ReachFrom(hh.k, UNION {KidSet(hh.k, c) : c \in keep} \cup keep)
-        drop  == garb \ held
+    LET reach == ReachFrom(hh.k, RootSet(st, sl, fr))
+        drop  == (Ids \ Free(hh)) \ reach
     IN [hh EXCEPT !.kd = [c \in Ids |-> IF c \in drop THEN "free" ELSE @[c]],
                   !.k  = [c \in Ids |-> IF c \in drop THEN <<>> ELSE @[c]],
-                  !.mk = [c \in Ids |-> IF c \in drop THEN <<>> ELSE @[c]]]
+                  !.mk = [c \in Ids |-> IF c \in drop THEN <<>> ELSE @[c]],
+                  !.rc = [c \in Ids |-> IF c \in drop THEN 0 ELSE @[c]]]
 
 \* ------------------------------------------------------------------ stack helpers
 Top(i) == stack[Len(stack) - i]
@@ -143,6 +144,7 @@ Finish(hh, st, sl, fr, lab) ==
     /\ h' = Collect(hh, st, sl, fr)
     /\ stack' = st /\ statics' = sl /\ frames' = fr
     /\ everCyc' = (everCyc \/ Cyclic(hh.k))
+    /\ walked' = Walk(hh, st, sl, fr)
     /\ last' = lab
 
 Lab(op, a, b, kd) == [op |-> op, a |-> a, b |-> b, kd |-> kd]
@@ -155,6 +157,7 @@ Init ==
     /\ statics = [i \in 1..NS |-> 0]
     /\ frames = << [loc |-> <<>>, try |-> FALSE] >>
     /\ everCyc = FALSE
+    /\ walked = NS
     /\ last = Lab("init", 0, 0, "")
 
 PushPrim ==
@@ -428,7 +431,8 @@ Next ==
 Spec == Init /\ [][Next]_vars
 
 \* ------------------------------------------------------------------ properties
-Walked == Walk(h, stack, statics, frames)
+Walked == walked
+WalkedOK == walked = Walk(h, stack, statics, frames)
 
 \* the abstract level, instantiated on the projection of this model
 Obs == [state |-> "NONE", final |-> FALSE, panicked |-> FALSE, gas |-> <<0>>, limit |-> <<0>>,
@@ -452,6 +456,9 @@ RcSane == /\ h.refs >= 0
 
 TypeOK == /\ Len(stack) <= MaxStack /\ Len(frames) <= MaxFrames
           /\ \A c \in Ids : Len(h.k[c]) <= MaxKids /\ (h.kd[c] = "map" => Len(h.mk[c]) = Len(h.k[c]))
+
+\* leaked cycles only ever add to the counter: exploring a bounded surplus is enough
+LeakBound == h.refs <= Walked + MaxLeak
 
 \* `last` is a label only
 View == <<h, stack, statics, frames, everCyc>>
